@@ -21,7 +21,7 @@ def run(ctx):
     big = ctx.tier != "quick"
     g = docgen.Gen(rng)
     docs = []
-    for _ in range(40000 if big else 4000):
+    for _ in range(160000 if big else 4000):
         t, _ = g.document()
         docs.append(t.encode())
     for n, d in corpus_files():
